@@ -214,7 +214,9 @@ fn parse_lean_line(l: &str) -> Result<LeanResult, String> {
             "states" => r.states = v.parse().map_err(|_| format!("bad states {v}"))?,
             "transitions" => r.transitions = v.parse().map_err(|_| format!("bad transitions {v}"))?,
             "complete" => r.complete = v == "true",
-            "verdict" => r.verdict = v.to_string(),
+            // the model's `count-overflow` (stored count above the ceiling while handles exist)
+            // is the same finding as loom's `count-mismatch` quiescence monitor
+            "verdict" => r.verdict = if v == "count-overflow" { "count-mismatch".to_string() } else { v.to_string() },
             _ => return Err(format!("unknown field {k}")),
         }
     }
